@@ -225,3 +225,51 @@ def gsize(rw, rh, nw, nh):
 
 def gsize_all():
     return [(16, 16, 16, 16), (8, 8, 16, 16), (16, 16, 8, 8), (1, 1, 16, 16), (16, 16, 1, 1), (17, 9, 9, 17), (5, 3, 5, 3), (1, 1, 1, 1), (16, 8, 16, 16)]
+
+
+def pmb_name(n, pt, umv):
+    return "c01_parse_mb_%dB_%s%s" % (n, ["I", "P", "D"][pt], "_umv" if umv else "")
+
+
+def pmb(n, pt, umv):
+    return ('    #[cfg_attr(kani, kani::proof)]\n    #[cfg_attr(kani, kani::unwind(4))]\n%s'
+            '    pub fn %s() { mb_contract::<%d, %d, %s>() }\n' % (MODEL_STUBS + PICK, pmb_name(n, pt, umv), n, pt, "true" if umv else "false"))
+
+
+def pdisp_name(n):
+    return "c04_disposable_mb_syntax_%dB" % n
+
+
+def pdisp(n):
+    return ('    #[cfg_attr(kani, kani::proof)]\n    #[cfg_attr(kani, kani::unwind(6))]\n%s'
+            '    pub fn %s() { disposable_like_p::<%d>() }\n' % (MODEL_STUBS + PICK, pdisp_name(n), n))
+
+
+def pumv_name(n):
+    return "c01_parse_umv_%dB" % n
+
+
+def pumv(n):
+    return ('    #[cfg_attr(kani, kani::proof)]\n    #[cfg_attr(kani, kani::unwind(4))]\n%s'
+            '    pub fn %s() { umv_contract::<%d>() }\n' % (MODEL_STUBS, pumv_name(n), n))
+
+
+def pblk_name(n, mode, intra):
+    return "c01_parse_block_%dB_%s_%s" % (n, ["std", "sor0", "sor1"][mode], "intra" if intra else "inter")
+
+
+def pblk(n, mode, intra, unwind):
+    return ('    #[cfg_attr(kani, kani::proof)]\n    #[cfg_attr(kani, kani::unwind(%d))]\n%s'
+            '    pub fn %s() { block_contract::<%d, %d, %s>() }\n' % (unwind, MODEL_STUBS + PICK, pblk_name(n, mode, intra), n, mode, "true" if intra else "false"))
+
+
+PICK = '    #[cfg_attr(kani, kani::stub(crate::parser::reader::H263Reader::read_vlc, crate::parser::reader::H263Reader::read_vlc_pick))]\n'
+
+
+def walk_name(table):
+    return "c01_vlc_walk_" + table.lower()
+
+
+def walk(table, depth, module_table_path):
+    return ('    #[cfg_attr(kani, kani::proof)]\n    #[cfg_attr(kani, kani::unwind(%d))]\n%s'
+            '    pub fn %s() { %s(&%s[..], %d) }\n' % (depth + 2, MODEL_STUBS, walk_name(table), "walk" if "TCOEF" not in table else "crate::parser::macroblock::verif_mb::walk", module_table_path, depth))
